@@ -448,6 +448,13 @@ OU = "physics/orbits/utils.py"
 EL = "physics/orbits/elements.py"
 AN = "physics/orbits/anomaly.py"
 STC = "scenario/config/state_config.py"
+KP = "physics/orbits/kepler.py"
+V("c12-kepler-eqe-residual-sign", "C12", "violation", "C12.R8", edits=[(KP, "    return F + h * cos(F) - k * sin(F) - lam", "    return F - h * cos(F) + k * sin(F) - lam")])
+V("c12-kepler-eqe-args-transposed", "C12", "violation", "C12.R8", edits=[(KP, "        args=(h, k, lam),", "        args=(k, h, lam),")])
+V("c12-kepler-coe-derivative-of-other-residual", "C12", "violation", "C12.R8", edits=[(KP, "        fprime=_keplerEquationDerivative,", "        fprime=_equinoctialKeplerEquationDerivative,")])
+V("c12-eqe2coe-argp-angle-complement", "C12", "violation", "C12.R8", edits=[(CV, "    argp = arctan2(h, k) - II * raan", "    argp = arctan2(k, h) - II * raan")])
+V("c12-n-kepler-secant", "C12", "pass", edits=[(KP, "        E_0,\n        fprime=_keplerEquationDerivative,\n", "        E_0,\n")])
+V("c12-n-kepler-residual-reordered", "C12", "pass", edits=[(KP, "    return E - ecc * sin(E) - M", "    return (E - M) - sin(E) * ecc")])
 V("c12-eci2coe-equatorial-slot", "C12", "violation", "C12.R1", edits=[(CV, "        return sma, ecc, inc, 0.0, true_long_periapsis, true_anomaly", "        return sma, ecc, inc, true_long_periapsis, 0.0, true_anomaly")])
 V("c12-singularity-circular-drops-argp", "C12", "violation", "C12.R1", edits=[(OU, "        arg_lat = wrapAngle2Pi(anomaly + argp)", "        arg_lat = wrapAngle2Pi(anomaly)")])
 V("c12-singularity-unwrapped", "C12", "violation", "C12.R1", edits=[(OU, "        true_long_rp = wrapAngle2Pi(raan + argp)", "        true_long_rp = raan + argp")])
@@ -632,6 +639,10 @@ V("c03-revert-F18-ragged-event-lists", "C03", "violation", "C03.R4", edits=[
     (CLF, "                current_time, stop_state = max(fired, key=lambda item: item[0])", "                current_time = np_max(solution.t_events)"),
     (CLF, "                    current_state=stop_state.reshape(state_shape),", "                    current_state=solution.y_events[0].reshape(state_shape),"),
 ])  # the reversed fix a8f827e as edits (its reverse patch no longer applies after 056cea2)
+SPF = "dynamics/special_perturbations.py"
+V("c03-third-body-vector-consumed-in-place", "C03", "violation", "C03.R7", edits=[(SPF, "    r_sat_3 = third_body_position - sat_position\n", "    r_sat_3 = r_e_3\n    r_sat_3 -= sat_position\n")], note="the third-body position (one per evaluation) is turned into the relative vector in place: the second column of a batch sees it displaced")
+V("c03-state-view-normalised-in-place", "C03", "violation", "C03.R7", edits=[(SPF, "            r_ecef = matmul(ecef_2_eci.T, r_eci)\n", "            r_eci /= 1.0\n            r_ecef = matmul(ecef_2_eci.T, r_eci)\n")], note="an in-place operation on the per-column VIEW of the solver's state vector")
+V("c03-n-relative-vector-in-place-on-own-copy", "C03", "pass", edits=[(SPF, "    r_sat_3 = third_body_position - sat_position\n", "    r_sat_3 = array(third_body_position)\n    r_sat_3 -= sat_position\n")], note="in-place arithmetic on a fresh copy")
 V("c03-revert-F19-empty-segment", "C03", "violation", "C03.R6", revert="056cea2")
 V("c03-n-empty-segment-guard-by-count", "C03", "pass", edits=[(CLF, "            states = array(states).reshape((*state_shape, n_t)).copy()", "            states = states.reshape((*state_shape, n_t)).copy() if n_t > 0 else zeros((*state_shape, 0))")])
 V("c03-empty-segment-last-time-unguarded", "C03", "violation", "C03.R6", edits=[(CLF, "                if n_t > 0 and current_time == solution.t[-1]:", "                if current_time == solution.t[-1]:")])
